@@ -149,6 +149,10 @@ package simplefixgo
 //@   ensures[C19,C18] @thenown imp(err == nil && 0 <= j && j < callN - c1, sel(callAt, c1 + j) == nth(own, j))
 //@   ensures[C19] @nothing imp(err != nil, callN == old(callN))
 
+// A variable captured by a goroutine's closure is not assigned again by the spawner
+// (checked for every `go func(){...}()` of the module).
+//@ rule[C04,C20] go-captures
+
 // ---- fields shared between goroutines (C20) ----------------------------------------------------
 //@ field[C20] Conn.reader: immutable_after(NewConn)
 //@ field[C20] Conn.writer: immutable_after(NewConn)
@@ -209,7 +213,7 @@ package simplefixgo
 //@   requires[C04] @freshconn rdN == 0 && sel(cut, 0) == 0
 //@   safety[C04,C11]
 //@   handover[C04]
-//@   modifies rdN, rdAt, cut
+//@   modifies rdN, rdAt, cut, clock, cancelled(ctxOf(c.cancel))
 //@   forall j int
 //@   forall p int
 //@   call NewReader#1: witness r = ret
@@ -244,7 +248,7 @@ package simplefixgo
 //@ func (c *Conn) Write(msg []byte) (err error)
 //@   requires c != nil && c.conn != nil && c.ctx != nil
 //@   safety[C04]
-//@   modifies wireOut(c.conn)
+//@   modifies wireOut(c.conn), clock, cancelled(ctxOf(c.cancel))
 //@   call Write#1:
 //@     assert[C04] @samebytes string(arg0) == string(msg)
 //@   ensures[C04] @whole imp(err == nil, wireOut(c.conn) == cat(old(wireOut(c.conn)), string(msg)))
@@ -290,7 +294,7 @@ package simplefixgo
 //@   callback pure
 //@   requires conn != nil && conn.conn != nil && conn.ctx != nil && handler != nil && ctx != nil
 //@   requires[C04] @ghostinit sel(wcut, outR) == len(wireOut(conn.conn))
-//@   modifies outR, wcut, wireOut(conn.conn)
+//@   modifies outR, wcut, wireOut(conn.conn), clock, cancelled(*)
 //@   forall j int
 //@   call Write#1:
 //@     assert[C04] @next string(arg1) == sel(outAt, outR - 1)
@@ -307,7 +311,7 @@ package simplefixgo
 //@   anchor ServeIncoming
 //@   callback pure
 //@   requires conn != nil && handler != nil && ctx != nil
-//@   modifies rdR, inN, inAt
+//@   modifies rdR, inN, inAt, clock, cancelled(*)
 //@   forall j int
 //@   call ServeIncoming#1:
 //@     assert[C04] @same string(arg0) == sel(rdAt, rdR - 1)
@@ -327,7 +331,7 @@ package simplefixgo
 //@ func (c *Initiator) Close()
 //@   requires c != nil && c.conn != nil
 //@   safety[C04]
-//@   pure
+//@   modifies cancelled(*)
 
 // The same two loops on the initiating side.
 //@ closure (*Initiator).Serve#writer () (err error)
@@ -335,7 +339,7 @@ package simplefixgo
 //@   callback pure
 //@   requires c != nil && c.conn != nil && c.conn.conn != nil && c.conn.ctx != nil && c.handler != nil && c.ctx != nil
 //@   requires[C04] @ghostinit sel(wcut, outR) == len(wireOut(c.conn.conn))
-//@   modifies outR, wcut, wireOut(c.conn.conn)
+//@   modifies outR, wcut, wireOut(c.conn.conn), clock, cancelled(*)
 //@   forall j int
 //@   call Write#1:
 //@     assert[C04] @next string(arg1) == sel(outAt, outR - 1)
@@ -350,7 +354,7 @@ package simplefixgo
 //@   anchor ServeIncoming
 //@   callback pure
 //@   requires c != nil && c.conn != nil && c.conn.conn != nil && c.handler != nil && c.ctx != nil
-//@   modifies rdR, inN, inAt
+//@   modifies rdR, inN, inAt, clock, cancelled(*)
 //@   forall j int
 //@   call ServeIncoming#1:
 //@     assert[C04] @same string(arg0) == sel(rdAt, rdR - 1)
@@ -429,3 +433,16 @@ package simplefixgo
 //@     assert[C04] @thissocket arg1 == netConn && ret.conn == netConn && fresh(ret) && fresh(ret.reader)
 //@   call MakeHandler#1:
 //@     assert[C04] @newhandler ret != nil && fresh(ret)
+
+// The accept loop serves exactly the connection it has just accepted, each in a
+// goroutine of its own that receives the connection by value.
+//@ interface net.Listener assumed
+//@   method Accept() (c net.Conn, err error):
+//@     ensures imp(err == nil, c != nil)
+//@ closure (*Acceptor).ListenAndServe#accept ()
+//@   anchor Accept
+//@   callback pure
+//@   requires s != nil && s.listener != nil && s.factory != nil
+//@   call Accept#1: witness accepted = ret0
+//@   call serve#1:
+//@     assert[C04] @thisconnection arg2 == accepted && arg0 == s
